@@ -712,6 +712,36 @@ func fieldsPrivate(repo, dir, anchored, typ string, fields []string) bool {
 			}
 			return true
 		})
+		// aliases: `var q = c.q`, `q := c.q`, `q := other` where the right-hand side is already known to be a queue
+		isKnown := func(e ast.Expr) bool {
+			switch b := e.(type) {
+			case *ast.Ident:
+				return names[b.Name]
+			case *ast.SelectorExpr:
+				return names[b.Sel.Name]
+			}
+			return false
+		}
+		for changed := true; changed; {
+			changed = false
+			ast.Inspect(f.AST, func(x ast.Node) bool {
+				switch n := x.(type) {
+				case *ast.ValueSpec:
+					for i, id := range n.Names {
+						if i < len(n.Values) && isKnown(n.Values[i]) && !names[id.Name] {
+							names[id.Name], changed = true, true
+						}
+					}
+				case *ast.AssignStmt:
+					for i, l := range n.Lhs {
+						if id, ok := l.(*ast.Ident); ok && i < len(n.Rhs) && isKnown(n.Rhs[i]) && !names[id.Name] {
+							names[id.Name], changed = true, true
+						}
+					}
+				}
+				return true
+			})
+		}
 		bad := false
 		ast.Inspect(f.AST, func(x ast.Node) bool {
 			s, ok := x.(*ast.SelectorExpr)
@@ -949,6 +979,9 @@ func LoadSyncQ(repo string) SyncQ {
 	if !s.SectionsAtomic {
 		s.Why = append(s.Why, "critical-section-split")
 	}
+	if !s.FieldsPrivate {
+		s.Why = append(s.Why, "fields-used-outside-syncqueue.go")
+	}
 	s.WaitLoop = waitLoops(f, "SyncQueue", "Length")
 	s.Fifo = callsOnly(f, "SyncQueue", []string{"Push"}, "Add", "Remove") && callsOnly(f, "SyncQueue", []string{"Pop", "TryPop"}, "Peek", "Add") &&
 		callsOnly(f, "SyncQueue", []string{"Pop", "TryPop"}, "Remove", "Get")
@@ -1061,6 +1094,9 @@ func LoadPriQ(repo string) PriQ {
 	p.FieldsPrivate = fieldsPrivate(repo, "queue/priq", "priority_queue.go", "PriQueue", []string{"entries", "curSeq", "mu", "signal", "capacity"})
 	if !p.SectionsAtomic {
 		p.Why = append(p.Why, "critical-section-split")
+	}
+	if !p.FieldsPrivate {
+		p.Why = append(p.Why, "fields-used-outside-priority_queue.go")
 	}
 	p.MethodSet = methodSetIs(repo, "queue/priq", "PriQueue", []string{"Len", "Pop", "Push", "WaitCh", "tyrSignal"}) &&
 		methodSetIs(repo, "queue/priq", "EntryList", []string{"Len", "Less", "Pop", "Push", "Swap"})
